@@ -352,3 +352,39 @@ fn c10_level_named_span_shorthands_evaluate_once_iff_enabled_at_their_own_level(
         assert!(evals.get() == 0 && s.spans.load(AO::SeqCst) == 0 && s.n.load(AO::SeqCst) == 0, "C10.span.level_shorthands.nothing_evaluated_when_disabled_at_the_named_level");
     }
 }
+// ... and their `?x` / `%x` shorthand arms and the message arm (each a separate arm per level-named macro)
+#[kani::proof]
+#[kani::unwind(8)]
+#[kani::stub(core::fmt::Formatter::pad, pad_stub)]
+#[kani::stub(tracing_core::dispatch::get_default, get_default_stub)]
+#[kani::stub(tracing_core::metadata::LevelFilter::current, current_stub)]
+#[kani::stub(tracing_core::callsite::register, register_stub)]
+fn c10_level_named_event_shorthands_sigil_and_message_arms_evaluate_once_iff_enabled_at_their_own_level() {
+    let x: u64 = nd();
+    let s = new_st();
+    let which: u8 = nd(); kani::assume(which < 5);
+    let (d, on) = stage(which + 1, &s);
+    CUR_DISPATCH.store(&d as *const Dispatch as usize, AO::SeqCst);
+    let evals = Cell::new(0u32);
+    let (dd, dg) = (Cell::new(0), Cell::new(0));
+    let thing = Probe { disp: &dd, dbg: &dg };
+    let form: u8 = nd(); kani::assume(form < 3);
+    match (which, form) {
+        (0, 0) => crate::error!(?thing), (0, 1) => crate::error!(%thing), (0, _) => crate::error!("m {}", { evals.set(evals.get() + 1); x }),
+        (1, 0) => crate::warn!(?thing), (1, 1) => crate::warn!(%thing), (1, _) => crate::warn!("m {}", { evals.set(evals.get() + 1); x }),
+        (2, 0) => crate::info!(?thing), (2, 1) => crate::info!(%thing), (2, _) => crate::info!("m {}", { evals.set(evals.get() + 1); x }),
+        (3, 0) => crate::debug!(?thing), (3, 1) => crate::debug!(%thing), (3, _) => crate::debug!("m {}", { evals.set(evals.get() + 1); x }),
+        (_, 0) => crate::trace!(?thing), (_, 1) => crate::trace!(%thing), (_, _) => crate::trace!("m {}", { evals.set(evals.get() + 1); x }),
+    }
+    kani::cover!(on && which == 4 && form == 1, "C10.reachable.trace_display_shorthand_enabled"); kani::cover!(!on && which == 0 && form == 2, "C10.reachable.error_message_disabled");
+    if on {
+        assert!(s.events.load(AO::SeqCst) == 1 && s.n.load(AO::SeqCst) == 1, "C10.event.level_shorthands.sigil_and_message_arms.one_event_one_field_when_enabled_at_the_named_level");
+        match form {
+            0 => assert!(saw(&s, 0, b't', K_DEBUG, 0) && dg.get() == 1 && dd.get() == 0, "C10.event.level_shorthands.question_mark_shorthand_is_named_like_the_variable_and_renders_Debug_once"),
+            1 => assert!(saw(&s, 0, b't', K_DEBUG, 0) && dd.get() == 1 && dg.get() == 0, "C10.event.level_shorthands.percent_shorthand_is_named_like_the_variable_and_renders_Display_once"),
+            _ => assert!(saw(&s, 0, b'm', K_DEBUG, 0) && evals.get() == 1, "C10.event.level_shorthands.message_argument_evaluated_once_and_presented_as_message"),
+        }
+    } else {
+        assert!(evals.get() == 0 && dd.get() == 0 && dg.get() == 0 && s.events.load(AO::SeqCst) == 0 && s.n.load(AO::SeqCst) == 0, "C10.event.level_shorthands.sigil_and_message_arms.nothing_evaluated_or_rendered_when_disabled_at_the_named_level");
+    }
+}
